@@ -359,6 +359,25 @@ func NewOpLib() *OpLib {
 		pool, _ := w.App.AmmKeeper.GetPool(w.RCtx(), 2)
 		p.Txs = one("t1", &ammtypes.MsgJoinPool{Sender: a.Addr.String(), PoolId: 2, MaxAmountsIn: sdk.NewCoins(C("uusdc", 3e9), C("uelys", 1e9)), ShareAmountOut: pool.TotalShares.Amount.QuoRaw(1000).AddRaw(1)})
 	})
+	// MaxAmountsIn lists that sdk.Coins.Validate would refuse (the message validates each coin alone):
+	// a DUPLICATE denom, and unsorted denoms
+	l.Add("join_p1_duplicate_denom_t1", "join", 0, func(w *World, p *BlockPlan) {
+		a := w.A("t1")
+		p.Txs = one("t1", &ammtypes.MsgJoinPool{Sender: a.Addr.String(), PoolId: 1, MaxAmountsIn: sdk.Coins{C("uusdc", 5e10), C("uusdc", 5e10)}, ShareAmountOut: I(1)})
+	})
+	l.Add("join_p1_duplicate_pair_t1", "join", 0, func(w *World, p *BlockPlan) {
+		a := w.A("t1")
+		p.Txs = one("t1", &ammtypes.MsgJoinPool{Sender: a.Addr.String(), PoolId: 1, MaxAmountsIn: sdk.Coins{C("uatom", 1e10), C("uusdc", 5e10), C("uusdc", 5e10)}, ShareAmountOut: I(1)})
+	})
+	l.Add("join_p1_unsorted_t1", "join", 0, func(w *World, p *BlockPlan) {
+		a := w.A("t1")
+		p.Txs = one("t1", &ammtypes.MsgJoinPool{Sender: a.Addr.String(), PoolId: 1, MaxAmountsIn: sdk.Coins{C("uusdc", 5e10), C("uatom", 1e10)}, ShareAmountOut: I(1)})
+	})
+	l.Add("join_p2_duplicate_pair_t1", "join", 0, func(w *World, p *BlockPlan) {
+		a := w.A("t1")
+		pool, _ := w.App.AmmKeeper.GetPool(w.RCtx(), 2)
+		p.Txs = one("t1", &ammtypes.MsgJoinPool{Sender: a.Addr.String(), PoolId: 2, MaxAmountsIn: sdk.Coins{C("uelys", 2e11), C("uusdc", 4e11), C("uusdc", 4e11)}, ShareAmountOut: pool.TotalShares.Amount.QuoRaw(10)})
+	})
 	l.Add("join_p2_all_lp2", "join", 0, func(w *World, p *BlockPlan) {
 		a := w.A("lp2")
 		p.Txs = one("lp2", &ammtypes.MsgJoinPool{Sender: a.Addr.String(), PoolId: 2, MaxAmountsIn: sdk.NewCoins(C("uusdc", 3e11), C("uelys", 1e11)), ShareAmountOut: I(1e16)})
